@@ -177,6 +177,9 @@ fn scn_read_stream(s: &Scn) -> Verdicts {
     let gate = match (s.cut.as_str(), use_eof) {
         ("at-liveness-read", false) => Some(arm("c04-actor", Site::StrongCount, 0)),
         ("commit-only-at-liveness-read", false) => Some(arm("c04-actor", Site::StrongCount, 0)),
+        // A liveness read that comes *after* the timed wait would have to be
+        // matched with a fresh look at the count; the pinned code has none.
+        ("at-a-second-liveness-read", false) => Some(arm("c04-actor", Site::StrongCount, 1)),
         ("during-wait", false) => Some(arm("c04-actor", Site::WaitForRead, 0)),
         ("after-liveness-read", true) => Some(arm("c04-actor", Site::ReadBuf, 0)),
         ("before-liveness-read", true) => Some(arm("c04-actor", Site::StrongCount, 0)),
@@ -192,6 +195,18 @@ fn scn_read_stream(s: &Scn) -> Verdicts {
     let r2 = r.clone();
     let actor = spawn_supervised("c04-actor", move || if use_eof { r2.eof() } else { r2.wait(need) });
     let mut writer_dropped_before_return = s.cut == "before-call";
+    if let (Some(g), "at-a-second-liveness-read") = (&gate, s.cut.as_str()) {
+        // poll: parked, or the call returned without a second liveness read
+        let t0 = Instant::now();
+        while !g.wait_parked(Duration::from_millis(20)) && !actor.is_finished() && t0.elapsed() < Duration::from_secs(3) {}
+        if !g.wait_parked(Duration::from_millis(1)) {
+            disarm_all();
+            let _ = actor.join_or_blocked(Duration::from_secs(5));
+            out.confirmed = true; // the call has a single liveness read: nothing to race here
+            out.inconclusive = None;
+            return out;
+        }
+    }
     if let Some(g) = &gate {
         if !g.wait_parked(Duration::from_secs(3)) {
             // The actor never reached the site (e.g. wait satisfied without a
@@ -725,6 +740,9 @@ pub fn grid() -> Vec<Scn> {
         for offset in offsets {
             for cut in ["before-call", "during-wait", "at-liveness-read", "commit-only-at-liveness-read", "after-call"] {
                 g.push(Scn { kind: "ReadStream::wait".into(), cut: cut.into(), b, need, k, offset });
+            }
+            if offset == 0 && b < need {
+                g.push(Scn { kind: "ReadStream::wait".into(), cut: "at-a-second-liveness-read".into(), b, need, k, offset });
             }
             if offset == 0 || offset == cap - 1 {
                 for cut in ["before-call", "before-liveness-read", "after-liveness-read", "after-call"] {
